@@ -460,6 +460,30 @@ def rule_R17_hashmap_entry(text, log):
        ->  if M.contains_key(&K) A[e.get() := M.get(&K).unwrap(), e.insert(x) := M.insert(K, x)] else B[v.insert(x) := M.insert(K, x)]
     (definition of the HashMap entry API for a Copy key; the values returned by insert are not used)"""
     out = text
+    # statement form `M.entry(K).or_insert_with(|| { B });`  ->  `if !M.contains_key(&K) { let vx_v = { B }; M.insert(K, vx_v); }`
+    # and `M.entry(K).or_insert(V);` -> `if !M.contains_key(&K) { M.insert(K, V); }`   (definition; the returned reference is unused)
+    rx2 = re.compile(r'(?<![\w.])([\w.]+)\.entry\((\w+)\)\.or_insert_with\(\s*\|\|\s*\{')
+    while True:
+        mask = code_mask(out)
+        mm = next((m for m in rx2.finditer(out) if mask[m.start()]), None)
+        if not mm:
+            break
+        ob = mm.end() - 1
+        cb = match_brace(out, mask, ob)
+        k = cb + 1
+        while out[k].isspace():
+            k += 1
+        if out[k] != ')':
+            raise Unsupported('R17: unexpected or_insert_with shape')
+        k2 = k + 1
+        while out[k2].isspace():
+            k2 += 1
+        if out[k2] != ';':
+            raise Unsupported('R17: value of or_insert_with is used')
+        m_, k_ = mm.group(1), mm.group(2)
+        new = 'if !%s.contains_key(&%s) { let vx_v = %s; %s.insert(%s, vx_v); }' % (m_, k_, out[ob:cb + 1], m_, k_)
+        log.append(('R17', norm_ws(mm.group(0)), 'if !%s.contains_key(&%s) { .. insert .. }' % (m_, k_)))
+        out = out[:mm.start()] + new + out[k2 + 1:]
     rx = re.compile(r'\bmatch\s+([\w.]+)\.entry\((\w+)\)\s*\{')
     while True:
         mask = code_mask(out)
@@ -1083,6 +1107,17 @@ def emit_fn(unit, loc, dlines, tmpl_where):
     emit_fn_text(unit, rel, path, fn_id, text, line0, line_of(src, it.end), dlines, tmpl_where)
 
 
+class _Span0(object):
+    def __init__(self, a):
+        self._a = a
+
+    def start(self):
+        return self._a
+
+    def end(self):
+        return self._a
+
+
 def emit_block(unit, loc, dlines, tmpl_where):
     """R9: a statement range of a (possibly async) fn, located by a start and an end anchor, is wrapped
     verbatim into a synthetic fn whose name and parameter list come from the contract file:
@@ -1092,11 +1127,12 @@ def emit_block(unit, loc, dlines, tmpl_where):
         //@ fallthrough `expr`        tail expression appended when the range can fall through
         //@ subst `x.y` => `z`        free-variable renaming inside the range (logged)
     the range must not contain `.await` (checked)"""
-    mm = re.match(r'^(.*?)\s::\s`(.*)`\s\.\.\s`(.*)`\s*$', loc)
+    mm = re.match(r'^(.*?)\s::\s`(.*)`\s\.\.(<?)\s`(.*)`\s*$', loc)
     if not mm:
         raise Unsupported('%s: bad //@block locator' % tmpl_where)
     rel, path = parse_locator(mm.group(1))
-    a_txt, b_txt = mm.group(2), mm.group(3)
+    a_txt, b_txt = mm.group(2), mm.group(4)
+    end_exclusive = mm.group(3) == '<'   # `a` ..< `b`: up to, not including, the statement that starts with b
     src, mask = unit.src(rel)
     it = find_item(src, mask, path)
     if it.kind != 'fn' or it.body_start is None:
@@ -1124,7 +1160,14 @@ def emit_block(unit, loc, dlines, tmpl_where):
     if not name or not sig:
         raise Unsupported('%s: //@block needs name and sig' % tmpl_where)
     ma = _find_anchor(body, bmask, a_txt, 0)
-    if b_txt == '{}':
+    if b_txt == '{*}':
+        # the statement that the start anchor opens: from the anchor to the brace that closes its block
+        if body[ma.end() - 1] != '{':
+            raise Unsupported('%s: `{*}` needs a start anchor that ends with an opening brace' % tmpl_where)
+        cb_ = match_brace(body, bmask, ma.end() - 1)
+        mb = _Span0(cb_ + 1)
+        blk = body[ma.start():cb_ + 1]
+    elif b_txt == '{}':
         # the range is everything inside the brace group that the start anchor opens (a match arm, an if body)
         if body[ma.end() - 1] != '{':
             raise Unsupported('%s: `{}` needs a start anchor that ends with an opening brace' % tmpl_where)
@@ -1147,6 +1190,8 @@ def emit_block(unit, loc, dlines, tmpl_where):
         if not hits_b:
             raise AnchorLost('block end anchor not found: `%s`' % b_txt)
         mb = hits_b[0]
+        if end_exclusive:
+            mb = _Span0(mb.start())
         blk = body[ma.start():mb.end()]
     for a, b in substs:
         # whitespace-insensitive match of the text to rename; an awaited expression may be renamed to a
